@@ -164,7 +164,8 @@ def axiom_audit(pid):
         if m:
             res[m.group(1)] = [a for a in m.group(2).split() if a]
     if r.returncode != 0 and not res:
-        raise InternalError("audit failed to run: " + (r.stdout + r.stderr)[-2000:])
+        # the property module does not build / is missing: a broken proof obligation, reported by the caller
+        res["__error__"] = [(r.stdout + r.stderr)[-1500:]]
     return res
 
 
